@@ -207,7 +207,7 @@ def inputs(ctx):
         if not d:
             d["a"] = ["left", None]
         return d
-    for k in range(300 if ctx.quick else 15000):
+    for k in range(300 if ctx.quick else 50000):
         if rng.random() < 0.5:
             ins.append({"id": "r%d" % k, "k": "dfxprt", "set": _set_desc(
                 rnd_layout() if rng.random() < 0.4 else None, rnd_layout() if rng.random() < 0.5 else None,
